@@ -74,3 +74,10 @@ def prime_path(p):
             Atoms.load(p)
     except Exception:
         pass       # the decoy is only a preparation; whatever is wrong with writing/reading shows in the judged calls
+
+
+def elements_of(a):
+    """per-atom element symbols computed from the object's type arrays, not through Atoms.elements (code under observation:
+    whatever it may remember from an earlier call must not reach the harness's own bookkeeping)"""
+    tab = [str(e) for e in a.atom_type_elements]
+    return [tab[int(t)] for t in a.atom_types]
